@@ -109,6 +109,18 @@ def main():
             mt = m.ask("keylog", text.encode("ascii").hex() or "-")
             if mt != it:
                 disagreements.append({"what": "key-log text %r" % text[:200], "model": mt[:160], "impl": it[:160]})
+        if m and i % 4 == 0 and text:
+            # the same text with bytes >= 0x80 planted anywhere (comments in other encodings, damage inside key lines): the code decodes a DSB as
+            # ASCII with replacement characters, the model reads the raw bytes
+            raw = bytearray(text.encode("ascii"))
+            for _ in range(rng.choice([1, 2, 5])):
+                raw.insert(rng.randrange(len(raw) + 1), rng.randrange(128, 256))
+            hist["text=non-ascii"] += 1
+            it2 = impl_keys(impl, bytes(raw).decode("ascii", errors="replace"))
+            mt2 = m.ask("keylog", bytes(raw).hex())
+            ck.case(("text-raw", bytes(raw)))
+            if mt2 != it2:
+                disagreements.append({"what": "key-log bytes %r" % bytes(raw)[:200], "model": mt2[:160], "impl": it2[:160]})
     # ---- 2. the same secrets supplied in different ways give the identical export
     n = 14 if ck.tier == "quick" else 200
     n_model = 4 if ck.tier == "quick" else 30
